@@ -334,12 +334,14 @@ pub fn send_to_gui(message: &str) {
 
 pub fn read_from_gui() -> String {
     let stdin = io::stdin();
-    let mut buffer = String::new();
-    if stdin.lock().read_line(&mut buffer).unwrap() == 0 {
+    // read the line as bytes, a line that is not valid UTF-8 is garbage to be ignored like any other
+    let mut raw = Vec::new();
+    if stdin.lock().read_until(b'\n', &mut raw).unwrap() == 0 {
         // end of input, the GUI is gone so treat it like quit
         info!("ENGINE << end of input");
         process::exit(0);
     }
+    let mut buffer = String::from_utf8_lossy(&raw).into_owned();
     buffer = clean_input(&buffer);
     info!("ENGINE << {}", buffer);
     buffer
